@@ -311,7 +311,7 @@ func Run(rep *hx.Report, props Props, tier string, sh hx.Shard, deadline time.Ti
 			for _, p := range [][]g.Instruction{{al[3]}, {al[8], al[5]}, {al[4], al[4]}, {al[7], al[0]}} {
 				for _, off := range []uint64{0, 65535, 65536, 69999, 70000} {
 					b := &Battle{M: m, R: m, W: m, P: 3, C: 12, ResetAt: -1, Ws: []WSpec{{p, len(p) - 1, off}, {[]g.Instruction{al[2]}, 0, off + 35000}}}
-					r.ck.bigRotation(b, []uint64{1, 65535, 65536, 65537, m - 1, m, m + 1, 3*m + 7})
+					r.ck.bigRotation(b, BigShifts(m))
 				}
 			}
 		}
@@ -345,10 +345,10 @@ func Run(rep *hx.Report, props Props, tier string, sh hx.Shard, deadline time.Ti
 		}
 	case props.C15:
 		if sh.I == 0 {
-			r.ck.manyResets(M, 600)
+			r.ck.manyResets(64, 70000)
 		}
 		if thorough {
-			rep.Bound = "one simulator through 600 battles separated by Reset; recording listener + StateRecorder on: all programs of length 1..2 over 16 letters alone; all ordered pairs of programs of length 1..2 over 12 letters x offsets x P 1..2; triples over 8 letters; 12-letter programs with Reset after every cycle count 0..6; load offsets M, M+3, 2M+7, 5M"
+			rep.Bound = "one simulator (M=64) through 70000 battles separated by Reset, most of them away from the cells the first one touched; recording listener + StateRecorder on: all programs of length 1..2 over 16 letters alone; all ordered pairs of programs of length 1..2 over 12 letters x offsets x P 1..2; triples over 8 letters; 12-letter programs with Reset after every cycle count 0..6; load offsets M, M+3, 2M+7, 5M"
 			p2 := Programs(alpha, 12, 2)
 			r.singles(M, Programs(alpha, 16, 2), full, 16)
 			r.pairs(M, p2, []uint64{1, 2}, []uint64{16}, full, false)
@@ -356,7 +356,7 @@ func Run(rep *hx.Report, props Props, tier string, sh hx.Shard, deadline time.Ti
 			r.resets(M, Programs(alpha, 12, 2), 6)
 			r.bigOffsets(M, Programs(alpha, 12, 2))
 		} else {
-			rep.Bound = "one simulator through 600 battles separated by Reset; recording listener + StateRecorder on: all programs of length 1..2 over 12 letters alone; all ordered pairs of programs of length 1..2 over 8 letters x offsets at P=2; triples over 5 letters; 8-letter programs with Reset after every cycle count 0..4; load offsets M, M+3, 2M+7, 5M"
+			rep.Bound = "one simulator (M=64) through 70000 battles separated by Reset, most of them away from the cells the first one touched; recording listener + StateRecorder on: all programs of length 1..2 over 12 letters alone; all ordered pairs of programs of length 1..2 over 8 letters x offsets at P=2; triples over 5 letters; 8-letter programs with Reset after every cycle count 0..4; load offsets M, M+3, 2M+7, 5M"
 			r.singles(M, Programs(alpha, 12, 2), full, 12)
 			r.pairs(M, Programs(alpha, 8, 2), []uint64{2}, []uint64{12}, full, false)
 			r.triples(M, alpha, 5, []uint64{2}, 8, full)
